@@ -299,12 +299,17 @@ fn gravsoft_grid_reader(buf: &[u8]) -> Result<(Vec<f64>, Vec<f32>), Error> {
     let dlon = header[5].copysign(lon_e - lon_w);
     let rows = ((lat_s - lat_n) / dlat + 1.5).floor() as usize;
     let cols = ((lon_e - lon_w) / dlon + 1.5).floor() as usize;
-    let bands = grid.len() / (rows * cols);
-    if (rows * cols * bands) > grid.len() || bands < 1 {
+    // rows and cols are derived from untrusted input: NaN gives 0, a zero
+    // or tiny grid spacing gives a product beyond the range of usize
+    let Some(nodes) = rows.checked_mul(cols).filter(|n| *n > 0) else {
+        return Err(Error::General("Malformed Gravsoft header"));
+    };
+    let bands = grid.len() / nodes;
+    if bands < 1 {
         return Err(Error::General("Incomplete Gravsoft grid"));
     }
 
-    if (rows * cols * bands) != grid.len() {
+    if (nodes * bands) != grid.len() {
         return Err(Error::General(
             "Unrecognized material at end of Gravsoft grid",
         ));
